@@ -28,6 +28,30 @@ CLAIMED = {
  "C14": dict(sec="6/C14", technique="Lean 4 invariant by induction over all create/destroy histories + history correspondence",
    text="Theorems over the registry state machine: live descriptors are positive and pairwise distinct and the GF-table reference count equals the number of live rs_vand instances after every history (induction over the operation list); a successful create returns a positive descriptor that was not live whatever the counter value (wrap past INT_MAX included); a failed create leaves the state unchanged; destroy makes the descriptor unknown and an unknown descriptor is refused without effect; create/destroy of one instance leaves every other descriptor's instance unchanged; tables present iff an rs_vand instance is live. Tie: bounded-exhaustive and random histories (create/destroy/double destroy/use/query/failed create over 4 slots, counter preset to 0, near INT_MAX and negative) replayed on the real library with exact descriptor values compared, every live instance round-trips after each step.",
    note="partial: physical isolation of heap objects is runtime behaviour. alloc_desc termination within live+2 iterations is assumed in the model's fuel (the fallback branch returns an error and keeps the invariant). ++next_backend_desc at INT_MAX is signed overflow in C; gcc wraps it, which is what the model describes (UBSan's signed-overflow check is off in the harness build)."),
+ "C01": dict(sec="6/C01", technique="Lean 4 theorems (front-end refinement to backend contracts; GF(2^16) field, MDS, Gauss-Jordan; kernel-decided XOR tables) + differential correspondence",
+   text="Theorems: for any backend meeting the encode/decode contracts, every created instance, every input (< 2^31-2^12 bytes, any content, length 0 included) and every list of fragments drawn from the encoded stripe (any order, duplicates, surplus) whose missing set is within tolerance, decode returns exactly the input, with and without forced checks. The contracts are proved for the built-in Reed-Solomon code for every k>=1, k+m<=32 (in fact <= 65536): xor/gmul is a field, the generator is MDS, Gauss-Jordan inverts every k available rows, region dot products compute matrix-vector products on 16-bit LE words; and for every flat-XOR table regenerated from the C header (kernel-decided symbolic run of every decode plan for |E|<hd, lifted to every payload content and length by a homomorphism lemma). Tie: enc/dec lines through the real library incl. permuted, duplicated, surplus and mis-aligned survivors, both checksum types, all XOR tables x all erasure sets < hd and all RS shapes n<=12 x all sets <= m in the thorough tier.",
+   note="16-byte alignment is not a notion of the value-level model (exercised by the harness). isa-l adapters: see C19."),
+ "C02": dict(sec="6/C02", technique="Lean 4 theorems (soundness for all fragment sub-multisets, no tolerance hypothesis) + exhaustive-subset correspondence under sanitizers",
+   text="Theorems: for ANY list of fragments drawn from one stripe (too few, beyond tolerance, duplicated, any order), with or without forced checks, decode returns the exact input or a negative code and reconstruct the exact fragment or a negative code; never other bytes and never the model's crash marker (out-of-range pivot, short buffer). Proved against the DecodeSound contract and instantiated for Reed-Solomon (every k>=1,k+m<=32) and the generated flat-XOR tables (beyond tolerance the classifier reaches GE_HD and errors; the two reconstruct shortcuts are proved sound for every missing list). Tie: all 2^(k+m) subsets of small codes and all XOR tables with sets of size hd..m, decode + reconstruct of every missing index, under ASan/UBSan with canaries around outputs.",
+   note="partial: out-of-bounds accesses and crashes of the compiled code are runtime behaviour (observed under sanitizers). Genuine defects found and fixed (0bd0aee, 17360e6)."),
+ "C03": dict(sec="6/C03", technique="Lean 4 theorems (whole-fragment equality incl. regenerated header) + all-destination correspondence",
+   text="Theorems: within tolerance, for every destination 0<=d<k+m (missing or supplied) reconstruct returns exactly the byte string encode produced for d (header, metadata CRC, payload CRC, payload); out-of-range destinations are rejected with EINVALIDPARAMS. RS: data rows of the inverse and substituted parity rows proved equal to the generator identity; XOR: single-parity shortcut and fall-through decode, kernel-decided per table for every (E, dest). Tie: rec lines for all destinations incl. supplied ones, maximum erasure counts, legacy CRC switch, out-of-range destinations in forked children.",
+   note="Genuine defect found and fixed (17360e6)."),
+ "C04": dict(sec="6/C04", technique="Lean 4 theorems (field, closed form, MDS, parity = matrix*data) + exhaustive execution over all 496 shapes and all table entries",
+   text="Theorems: GF(2^16)/0x1100b arithmetic of the model is a field; generator entries equal L_j(r)/L_j(k) in it; rows 0..k-1 identity, first parity row all ones; any k of the k+m rows invertible (k+m<=65536); encode's parity payloads are the matrix-vector products on little-endian 16-bit words. Executed exhaustively every run (reported as execution): make_systematic_matrix of the library = transliterated makeSys = closed form for all 496 shapes; all log/antilog table entries and 20k-200k products/quotients of rs_galois_mult/div = model.",
+   note="makeSys = closed form and table-driven mult = gmul are established by exhaustive execution, not by a kernel theorem (DESIGN 5.2)."),
+ "C15": dict(sec="6/C15", technique="Lean 4 theorems (bounded reads of validation/metadata, instance stability over histories) + guard-page and cross-history correspondence",
+   text="Theorems: header validation depends only on the 80 header bytes; the metadata query only on the header and the announced payload bytes; results are functions of (switch, backend, instance record, arguments) and the record behind a live descriptor is unchanged by any history of create/destroy on other descriptors. Tie: every input of encode/decode/reconstruct/metadata/validation on read-only pages ending at a PROT_NONE page in forked children, inputs compared before/after every call in every suite, re-encode after unrelated activity and from a second thread.",
+   note="partial: absence of stray reads/writes of the compiled code and thread-independence are runtime behaviour (observed, not proved); immutability of inputs holds by construction in the value-level model."),
+ "C16": dict(sec="6/C16", technique="Lean 4 theorems over the allocation ledger + counting-allocator and ASan/LSan correspondence",
+   text="Theorems over the ledger model: blocks held after any history = live instance + outstanding encode result (k+m+2) + outstanding decode result (1); failing calls hold nothing; cleanup calls release exactly what was returned; decode_cleanup, encode_cleanup, destroy drain to zero from every state, for every shape. Tie: random histories (<=300 calls mixing valid, insufficient, bad-header, invalid-argument, unsupported-shape, unaligned and forced calls) on the real library with an interposed counting allocator (block count after every call compared with the model, double frees counted) and again under ASan+LeakSanitizer.",
+   note="partial: that every early-exit path frees what it allocated and no freed block is touched is observed (ledger, ASan), not proved; the allocator is runtime."),
+ "C17": dict(sec="6/C17", technique="Lean 4 theorems (front end parameterised by failing backend ops) + op-table fault injection",
+   text="Theorems: backend encode/decode/reconstruct/fragments_needed failing makes the public call return that negative code (decode can only return ok through the fast path or a successful backend decode); init failure gives EBACKENDINITERR and leaves the registry unchanged; operations are functions with no instance state to corrupt; the fault script holds nothing after the failed step. Tie: the instance's operation table is pointed at failing stubs at every position of a scripted workload for null, flat_xor_hd and rs_vand; return codes, allocation ledger after the failed call, the follow-up round trip and the final ledger are compared with the model; the same under ASan/LSan.",
+   note="partial: released memory and dlopen reference counts are runtime behaviour. Genuine defect found and fixed (edaa63e: handle not closed when init fails)."),
+ "C20": dict(sec="6/C20", technique="Lean 4 theorems (forced decode = plain decode of the valid sub-list) + damaged-subset correspondence",
+   text="Theorems: with forced checks and acceptable headers, decode equals plain decode of the fragments that pass validation (EINSUFFFRAGS if fewer than k do); removing an invalid fragment does not change the result; if every supplied fragment is either a genuine fragment of the stripe or fails validation, the result is the input when the genuine ones are within tolerance and otherwise a negative code, never other bytes. Tie: stripes with damaged subsets (payload bit flips under CRC32, re-sealed backend id / version / index edits), permuted, forced and unforced.",
+   note="Genuine defect found and fixed (88e5728)."),
 }
 
 PENDING = {}
